@@ -254,6 +254,50 @@ fn isolated(threads: usize, rounds: usize, yield_every: u64) -> Result<(u64, Str
     Ok(((threads * rounds * ISOLATED.len()) as u64, format!("{threads} threads x {rounds} rounds x {} functions agree with the sequential run", ISOLATED.len())))
 }
 
+/// plain stores racing compound assignments on one cell: one thread stores k * 10^9 for k = 1, 2, .. and reads the cell back
+/// right after each store, the others apply `+= 1` / `^= 0` / `|= 0` / `*= 1`. Every update being atomic, what the storing
+/// thread reads lies in [k * 10^9, (k + 1) * 10^9) - a store that a concurrent compound assignment overwrites with a
+/// result computed from the older content shows as a value of an earlier epoch.
+fn mixed_stores(threads: usize, rounds: usize, yield_every: u64) -> Result<(u64, String), String> {
+    let rounds = rounds.min(8);
+    let per = 20_000usize;
+    let cell = Arc::new(Mut { var_type: Type::Int, variable: RwLock::new(Variable::Int(0)) });
+    let storer = parse_function("(c: mut int, n: int) -> int { k := mut 0; bad := mut 0; while *k < n { k += 1; c = *k * 1000000000; r := *c; if r < *k * 1000000000 || r >= (*k + 1) * 1000000000 { bad += 1; } } return *bad }").ok_or("storer rejected")?;
+    let bumper = parse_function("(c: mut int, n: int) -> int { i := mut 0; while *i < n { i += 1; c += 1; c ^= 0; c |= 0; c *= 1; } return *i }").ok_or("bumper rejected")?;
+    let barrier = Arc::new(Barrier::new(threads));
+    let mut handles = Vec::new();
+    for t in 0..threads {
+        let (f, cell, barrier) = (if t == 0 { storer.clone() } else { bumper.clone() }, cell.clone(), barrier.clone());
+        let n = if t == 0 { rounds * 1000 } else { per };
+        handles.push(std::thread::Builder::new().stack_size(64 << 20).spawn(move || -> Result<i64, String> {
+            verif::set_yield_every(if yield_every == 0 { 0 } else { yield_every + t as u64 % 2 });
+            let code = f.create_call(vec![Variable::Mut(cell), Variable::Int(n as i64)]).map_err(|e| format!("{e}"))?;
+            barrier.wait();
+            match real::guarded(|| code.exec()) {
+                Ok(Ok(Variable::Int(v))) => Ok(v),
+                Ok(other) => Err(format!("worker got {other:?}")),
+                Err(p) => Err(format!("worker panicked at {}: {}", p.site(), p.short_msg())),
+            }
+        }).map_err(|e| format!("spawn: {e}"))?);
+    }
+    let mut bad = 0;
+    for (t, h) in handles.into_iter().enumerate() {
+        let v = h.join().map_err(|_| "worker thread died".to_string())??;
+        if t == 0 {
+            bad = v;
+        }
+    }
+    if bad != 0 {
+        return Err(format!("{bad} of {} plain stores `c = k * 10^9` were not there when the storing thread read the cell back (a concurrent compound assignment wrote a result computed from older content: not atomic)", rounds * 1000));
+    }
+    let fin = cell.variable.read().map_err(|_| "poisoned".to_string())?.as_int().copied().unwrap_or(-1);
+    let last = (rounds * 1000) as i64 * 1_000_000_000;
+    if fin < last || fin >= last + 1_000_000_000 {
+        return Err(format!("after the last store of {last} and at most {} increments the cell holds {fin} (a lost or torn update)", (threads - 1) * per));
+    }
+    Ok(((rounds * 1000 + (threads - 1) * per * 4) as u64, format!("1 storing thread x {} stores read back, {} threads x {per} x 4 compound assignments: every store was seen", rounds * 1000, threads - 1)))
+}
+
 /// one shared function value whose *sites* (type tests, type arms, value arms, type filters, operators over unions) see
 /// values of a different runtime type from every thread at the same time: anything an implementation remembers per
 /// site (inline caches, memoised verdicts) must not leak between threads. Each call's result is compared with the
@@ -700,6 +744,7 @@ pub fn child(spec: &str) {
             "reads" => single_reads(threads.max(2), size, yld),
             "printing" => printing_nested(threads.max(2), size, yld),
             "sites" => shared_sites(threads.max(2), size, yld),
+            "mixed" => mixed_stores(threads.max(2), size, yld),
             r if r.starts_with("cross") => cross_cells(r[5..].parse().unwrap_or(0), threads.max(2), size, yld),
             other => Err(format!("unknown scenario {other}")),
         }
@@ -733,7 +778,8 @@ pub fn run(cfg: &Cfg, rep: &mut Report) {
         }
         let threads = *rng.pick(&[2usize, 2, 3, 4, 4, 8, 16]);
         let yld = *rng.pick(&[0usize, 0, 1, 2, 5]);
-        let (scenario, size) = match rng.below(24) {
+        let (scenario, size) = match rng.below(26) {
+            24 | 25 => ("mixed".to_string(), *rng.pick(&[1usize, 4, 8])),
             22 | 23 => ("sites".to_string(), *rng.pick(&[100usize, 1000, 4000])),
             20 | 21 => (format!("cross{}", rng.below(12)), *rng.pick(&[50usize, 500, 5000])),
             16 | 17 => ("appends".to_string(), *rng.pick(&[20usize, 100, 400])),
